@@ -148,6 +148,7 @@ def contract(
     may_raise=None,
     defines=(),
     mutates=(),
+    alias=None,
 ):
     if cases is None:
         cases = [dict(when="True", returns=returns, ensures=list(ensures))]
@@ -178,7 +179,8 @@ def contract(
         defines=list(defines),
         mutates=list(mutates),
     )
-    CONTRACTS[qualname] = c
+    # alias: a second contract of the same function for another shape of its input (each one verifies the body)
+    CONTRACTS[alias or qualname] = c
     return c
 
 
